@@ -121,6 +121,30 @@ func runC02(s *kernel.Sim) {
 	}
 	files["quotas/quota.yaml"] = q.String()
 	files["flows/fc.yaml"] = limiterFlow("fc", "a.com/c", "qc").YAML()
+	// a third of the runs load one more flow whose response direction has a processor
+	// of its own; the simulator can make it fail for one response (fault point
+	// proc.execute): the response walk is aborted before the quota's system end flow
+	// releases the slot, and the proxy's failure report that follows has to
+	withRespFlow := tp.Chance(1, 3)
+	s.Knobs["flow_with_response_processor"] = withRespFlow
+	if withRespFlow {
+		files["flows/fr.yaml"] = flowDef{
+			Name: "fr", URL: "a.com/*",
+			Procs: []procDef{{Key: "rf", Type: "Filter", Params: [][2]string{{"header", "x-never=1"}}}},
+			Req:   []connDef{{FromStream: "start", ToStream: "end"}},
+			Resp: []connDef{{FromStream: "start", ToProc: "rf"}, {FromProc: "rf", Cond: "hit", ToStream: "end"},
+				{FromProc: "rf", Cond: "miss", ToStream: "end"}},
+		}.YAML()
+	}
+	failResp := map[string]bool{}
+	s.FaultOn = func(point string, a []string) error {
+		if point == "proc.execute" && len(a) == 4 && a[1] == "rf" && failResp[a[3]] {
+			delete(failResp, a[3])
+			s.FaultFired("response_processor_failed")
+			return fmt.Errorf("injected failure of processor %s", a[1])
+		}
+		return nil
+	}
 	if withRate >= 2 {
 		first, second := "qr", "qc"
 		if withRate == 3 {
@@ -283,6 +307,17 @@ func runC02(s *kernel.Sim) {
 			s.Event("proxy_error", t.id)
 			env.Stream.OnError(t.id)
 			s.FaultFired("proxy_error")
+		case 2:
+			// the response is processed, a user flow's processor fails, the walk is
+			// aborted; the proxy then reports the transaction as failed
+			s.Event("failed_response_then_proxy_error", t.id)
+			failResp[t.id] = true
+			r := env.doResponse(t.id, "GET", "a.com", path(t.level), 500, nil)
+			if r.Err == nil && !failResp[t.id] {
+				s.Violate("R2", "fault-not-reported", "the response walk of %s met an injected processor failure and returned no error", t.id)
+			}
+			delete(failResp, t.id)
+			env.Stream.OnError(t.id)
 		}
 		t.ended = true
 	}
@@ -429,7 +464,18 @@ func runC02(s *kernel.Sim) {
 		}
 		used := map[*c02txn]bool{}
 		for i := 0; i < k; i++ {
-			switch c := tp.Weighted([]int{4, 3, 1, 1, 1, 1, 1}); {
+			wFail := 0
+			if withRespFlow {
+				wFail = 2
+			}
+			switch c := tp.Weighted([]int{4, 3, 1, 1, 1, 1, 1, wFail}); {
+			case c == 7 && len(open) > 0:
+				t := open[tp.Choose(len(open))]
+				if used[t] {
+					continue
+				}
+				used[t] = true
+				ops = append(ops, op{4, t, false})
 			case c == 6 && len(open) > 0:
 				// the response is processed while the proxy reports the same transaction
 				// as failed: two releases of one slot that overlap
@@ -492,6 +538,8 @@ func runC02(s *kernel.Sim) {
 				endTxn(o.t, 0)
 			case 2:
 				endTxn(o.t, 1)
+			case 4:
+				endTxn(o.t, 2)
 			case 3:
 				s.FaultFired("duplicate_end")
 				s.Event("duplicate_end", o.t.id)
